@@ -240,6 +240,8 @@ def scenarios(thorough):
     for p in pats:
         for ins in (None, 13):
             out.append(Scenario([p], ins))
+    for p in (["N1"], ["R", "N2"]):
+        out.append(Scenario([p], 0))  # program 0 is a MIDI instrument too
     for first, second in ((["N1", "R"], ["N2"]), (["R"], ["R", "N1"]), (["N2"], ["T2", "R"]), (["R", "R"], ["R"]), (["R", "N1"], ["N1"])):
         for ins in (None, 40):
             out.append(Scenario([first, second], ins))
@@ -290,7 +292,7 @@ def rule_stream(ctx):
 
             def tickof(v):
                 for sym, rf in ticks.values():
-                    if rf.same(RatFun(RatFun.of(288).num * v.den, v.num)):
+                    if rf is not None and rf.same(RatFun(RatFun.of(288).num * v.den, v.num)):
                         return Lin.of(sym)
                 return Lin.of(Sym("unrounded(%r)" % (v,), 0, INF))
             lost = [x for x in it.delta_log if x[0] == "lost"]
